@@ -22,11 +22,31 @@ def _nontrivial(req, impl):
     return any(k == 0 or k < max(tr) for k in _items(sched))
 
 
+def _regen_write_sites(V, log=None):
+    """pre_build stage: scan /repo/src for every call made on an io::Write parameter (checks/srcscan.py) and rewrite
+    lean/CG/Generated/WriteSites.lean when it changed; the theorem C15_source_has_no_bare_write is re-checked against it."""
+    import os, sys, importlib
+    sys.path.insert(0, os.path.join(V, "checks"))
+    import srcscan
+    importlib.reload(srcscan)
+    src = srcscan.render(srcscan.scan_repo("/repo/src"))
+    path = os.path.join(V, "lean", "CG", "Generated", "WriteSites.lean")
+    try:
+        if open(path).read() == src:
+            return None
+    except FileNotFoundError:
+        pass
+    with open(path, "w") as f:
+        f.write(src)
+    return "rewritten from /repo/src: CG/Generated/WriteSites.lean"
+
+
 PROP = dict(
     modules=["CG.Props.C15"],
+    pre_build=_regen_write_sites,
     required_theorems=["C15_write_all_delivers", "C15_write_all_never_silently_drops", "C15_memory_buffer", "C15_ops_deliver",
                        "C15_schedule_independent", "C15_ok_means_delivered", "C15_trace_replay_delivers", "C15_raw_can_drop",
-                       "C15_raw_never_safe", "C15_raw_fails_on_interrupt"],
+                       "C15_raw_never_safe", "C15_raw_fails_on_interrupt", "C15_source_has_no_bare_write", "C15_source_sites_deliver"],
     rule="Every Message variant that can be written (32 kinds, addrv2 and cmpctblock with prefilled transactions built by decoding) and "
          "every public Serializable type (35 kinds incl. Hash256, OutPoint, TxIn, TxOut, Tx, Block, BlockHeader, Headers, InvVect, Inv, "
          "BlockLocator, MerkleBlock, NodeAddr(Ex), Version, BloomFilter, ExtendedKey, [u8;16/32], var_int): the value is written once to "
@@ -39,7 +59,7 @@ PROP = dict(
     nontrivial=_nontrivial,
     trusted_base=["std::io::Write::write_all (standard library) modelled by hand as writeAll; tied by the c15.calls comparison of every raw call's requested length",
                   "byteorder's write_u8/u16/u32/u64 are write_all of the encoded integer (confirmed by the call traces)",
-                  "the claim 'every call of every serialiser is a write_all' rests on the differential run (the call trace of each generated value replayed under position-targeted schedules), not on a proof about the Rust source"],
+                  "the claim 'every call of every serialiser is a write_all' rests on (a) the differential run (the call trace of each generated value replayed under position-targeted schedules) and (b) a source scan regenerated on every run (checks/srcscan.py -> CG/Generated/WriteSites.lean: every method call on an io::Write parameter in non-test code, classified) with the kernel-checked theorem that none is a bare write/write_vectored; the scanner (a regex-level reading of the Rust source, not a Rust parser) is trusted for (b)"],
     assumptions=["a schedule is finite: after it the destination accepts in full, fails hard, or returns Ok(0) for ever",
                  "acceptance limits are >= 1 byte per call (a call that accepts 0 bytes of a non-empty request is the Ok(0)/WriteZero case)",
                  "Message::Other and Message::Partial are not serialisable (write returns InvalidData before any call) and are not exercised"],
@@ -51,8 +71,9 @@ CLAIM = dict(
          "delivers exactly its buffer under every schedule and terminates; a serialiser made of write_all calls delivers exactly its "
          "in-memory encoding under every schedule, and on any destination never reports Ok with bytes missing; a bare write() whose count "
          "is ignored drops bytes for every payload of >= 2 bytes. That every call of every chain-gang serialiser is a write_all is tied "
-         "to the code by the differential run: all 32 writable Message kinds and 35 Serializable types through a scripted partial writer, "
-         "with each call of each trace disturbed in turn.",
+         "to the code twice: by a table of every call made on an io::Write parameter, regenerated from the Rust source on every run, with the "
+         "theorem that none of them is a bare write (C15_source_has_no_bare_write), and by the differential run: all 32 writable Message kinds "
+         "and 35 Serializable types through a scripted partial writer, with each call of each trace disturbed in turn.",
     note="Trusted: Lean kernel; hand model of std write_all (its raw-call sequence is compared with the real one on every case); the "
-         "per-serialiser fact 'all calls are write_all' is differential (bounded by the generators), not proved from the Rust source.",
+         "per-serialiser fact 'all calls are write_all' is differential (bounded by the generators) plus a regex-level source scan (trusted), not a proof about rustc's semantics of the source.",
 )
